@@ -796,4 +796,280 @@ Proof.
         rewrite Eh, flat_app, procs_app, !in_app_iff; tauto.
   - intros o Ho. apply U4. apply (Permutation_in _ PM). exact Ho.
 Qed.
+
+Lemma in_allprocs_iff w y : In y (allprocs (k_lps w)) <-> exists i, i < length (k_lps w) /\ In (EProc y) (x_hist (get_lp w i)).
+Proof.
+  split; [apply in_allprocs|]. intros (i & Hi & H). unfold allprocs. apply in_flat_map. exists (get_lp w i). split; [unfold get_lp; apply nth_In; exact Hi|apply in_procs; exact H].
+Qed.
+Lemma in_allmarks_iff w y : In y (allmarks (k_lps w)) <-> exists i, i < length (k_lps w) /\ In (ESent y) (x_hist (get_lp w i)).
+Proof.
+  unfold allmarks. rewrite in_flat_map. split.
+  - intros (x0 & Hx & Hm). destruct (In_nth _ _ lpx_dummy Hx) as (i & Hi & E). exists i. split; [exact Hi|]. unfold get_lp. rewrite E. apply in_marks. exact Hm.
+  - intros (i & Hi & H). exists (get_lp w i). split; [unfold get_lp; apply nth_In; exact Hi|apply in_marks; exact H].
+Qed.
+Lemma bnd_flat_prefix a b : bnd (flat (a ++ b)) (length (flat a)).
+Proof.
+  destruct a as [|g0 a0] using rev_ind; [left; reflexivity|right]. exists (snd g0). rewrite flat_app.
+  assert (Hpos : 0 < length (flat (a0 ++ [g0]))) by (rewrite flat_app, app_length; unfold flat at 2; cbn [flat_map]; unfold flat1; rewrite !app_length; cbn; lia).
+  rewrite nth_error_app1 by lia. apply flat_last.
+Qed.
+Lemma skipn_flat_init ms im gk : skipn (S (length ms)) (flat ((ms, im) :: gk)) = flat gk.
+Proof.
+  rewrite flat_cons. replace (S (length ms)) with (length (map ESent ms ++ [EProc im])) by (rewrite app_length, map_length; cbn; lia).
+  change (map ESent ms ++ EProc im :: flat gk) with (map ESent ms ++ [EProc im] ++ flat gk). rewrite app_assoc, skipn_app, skipn_all, Nat.sub_diag. reflexivity.
+Qed.
+
+(* ---------- an ordinary message, possibly a straggler: abstract step s_process ---------- *)
+Lemma flat_cons_cut ms im gs k : bnd (flat ((ms, im) :: gs)) k -> k <= length (flat ((ms, im) :: gs)) -> S (length ms) <= k ->
+  exists gk gu, gs = gk ++ gu /\ k = length (flat ((ms, im) :: gk)).
+Proof.
+  intros Hb Hk Hge. destruct (flat_cut ((ms, im) :: gs) k Hb Hk) as (gk0 & gu & E & E1 & E2).
+  destruct gk0 as [|g0 gk].
+  - exfalso. assert (Hl : length (firstn k (flat ((ms, im) :: gs))) = 0) by (rewrite E1; reflexivity).
+    rewrite firstn_length_le in Hl by exact Hk. lia.
+  - cbn [app] in E. injection E as E0 E. subst g0. exists gk, gu. split; [exact E|]. assert (Hl : length (firstn k (flat ((ms, im) :: gs))) = length (flat ((ms, im) :: gk))) by (rewrite E1; reflexivity).
+    rewrite firstn_length_le in Hl by exact Hk. exact Hl.
+Qed.
+
+Lemma sim_process w a w1 m : R w a -> Permutation (pend w) (m :: pend w1) ->
+  k_flags w1 = k_flags w -> k_next w1 = k_next w -> k_gvt w1 = k_gvt w -> k_lps w1 = k_lps w -> k_epoch w1 = k_epoch w -> k_err w1 = k_err w ->
+  good w1 -> fl (k_flags w) m = 0%N ->
+  let l := N.to_nat (e_dest (wm_ev m)) in
+  let w3 := set_flags w1 (flag_set (k_flags w1) (wm_id m) 2) in
+  let x := get_lp w3 l in
+  let strag := match last_proc (x_hist x) with Some lastm => (Z.of_N (e_t (wm_ev m)) <=? x_bound x)%Z && wbefore (k_flags w3) m lastm | None => false end in
+  let w4 := if strag then do_rollback p w3 l (straggler_index (k_flags w3) m (x_hist x)) else w3 in
+  let w' := forward p ck w4 l m in
+  full p w' -> exists a', astep a a' /\ R w' a'.
+Proof.
+  intros Hr Hperm Ef En Eg El Ee Eerr G1 Hfm l w3 x strag w4 w' F'.
+  pose proof Hr as [F Hlen Hg [He0 Hel] M0 N5 Hre Hh Hp Ha Hn].
+  pose proof (once_loc w F Hg) as L.
+  assert (HL1 : Loc 0 (k_flags w) (m :: pend w1) (allprocs (k_lps w)) (allmarks (k_lps w)) (k_next w)) by (eapply Loc_perm; [exact L|exact Hperm|apply Permutation_refl|apply Permutation_refl]).
+  assert (Hmin : In m (pend w)) by (apply (Permutation_in _ (Permutation_sym Hperm)); left; reflexivity).
+  destruct (f_extra p w F) as [Hxp Hxl]. destruct (Hxp m Hmin) as [Hty Hdl]. fold l in Hdl. rewrite Hlen in Hdl.
+  destruct (nodup_cons_id m (pend w1) (l_nd_pd _ _ _ _ _ _ HL1)) as [Hnm1 _].
+  assert (Hnpr : ~ In m (allprocs (k_lps w))).
+  { destruct (l_pd _ _ _ _ _ _ L m Hmin) as [[H _]|[_ H]]; [rewrite Hfm in H; discriminate|exact H]. }
+  assert (Hid : forall y, In y (pend w ++ allprocs (k_lps w) ++ allmarks (k_lps w)) -> wm_id y = wm_id m -> y = m).
+  { intros y Hy E. apply (same_id w y m F Hg Hy); [apply in_or_app; left; exact Hmin|exact E]. }
+  assert (Hl3 : l < length (k_lps w3)) by (change (k_lps w3) with (k_lps w1); rewrite El, Hlen; exact Hdl).
+  set (f3 := flag_set (k_flags w1) (wm_id m) 2).
+  assert (Hfl : forall y, wm_id y <> wm_id m -> fl f3 y = fl (k_flags w) y) by (intros y Hy; unfold f3; rewrite Ef; apply fl_set_other; exact Hy).
+  assert (Hf3m : fl f3 m = 2%N) by (unfold f3; apply fl_set_same).
+  pose proof (Loc_extract0 _ _ _ _ _ _ _ HL1 Hfm) as HL3. rewrite <- Ef in HL3. fold f3 in HL3.
+  assert (Ok3 : all_ok2 p w3) by (unfold all_ok2; change (k_lps w3) with (k_lps w1); rewrite El; exact (f_ok p w F)).
+  assert (G3 : good w3) by (apply set_flags_good; exact G1).
+  (* the history of LP l, grouped *)
+  destruct (Hh l Hdl) as (ms & im & gs & Ehist & Einit & Ebase & Eah).
+  assert (Ex : x = get_lp w l) by (unfold x, get_lp; change (k_lps w3) with (k_lps w1); rewrite El; reflexivity).
+  rewrite <- Ex in Ehist, Ebase.
+  destruct (get_ok2 p w3 l Ok3 Hl3) as [Hlok Hlwf]. fold x in Hlok, Hlwf.
+  assert (Hpin : forall g, In g gs -> In (snd g) (allprocs (k_lps w))).
+  { intros g Hgg. unfold allprocs. apply in_flat_map. exists (get_lp w l). split; [unfold get_lp; apply nth_In; rewrite Hlen; exact Hdl|].
+    rewrite <- Ex, Ehist. rewrite procs_flat. cbn [map]. right. apply in_map. exact Hgg. }
+  assert (Hdb : forall g, In g gs -> Abs.dbefore cont cltb tltb a (amsg m) (ent g) = wbefore f3 m (snd g)).
+  { intros g Hgg. apply (dbefore_wbefore w a m (snd g) f3 Hr (Hpin g Hgg) Hfl); [|exact Hf3m].
+    intro E. apply Hnpr. rewrite <- (Hid (snd g) ltac:(rewrite !in_app_iff; right; left; apply Hpin; exact Hgg) E). apply Hpin. exact Hgg. }
+  (* where the history is cut *)
+  assert (Hcut : exists gk gu, gs = gk ++ gu /\
+            (forall g, In g gu -> wbefore f3 m (snd g) = true) /\ (gk = [] \/ exists gk' g, gk = gk' ++ [g] /\ wbefore f3 m (snd g) = false) /\
+            w4 = (if strag then do_rollback p w3 l (length (flat ((ms, im) :: gk))) else w3) /\ (strag = false -> gu = [])).
+  { destruct strag eqn:Es.
+    - unfold strag in Es. destruct (last_proc (x_hist x)) as [lastm|] eqn:Elast; [|discriminate]. apply andb_true_iff in Es. destruct Es as [_ Ew].
+      change (k_flags w3) with f3 in Ew.
+      destruct (straggler_index_spec f3 m (x_hist x) lastm Elast Ew) as [Habove Hstop]. cbn zeta in Habove, Hstop.
+      destruct (straggler_index_bnd f3 m (x_hist x)) as [Hbnd Hkle].
+      assert (Hbase : lp_base x) by (rewrite Ex; apply (Hxl l ltac:(rewrite Hlen; exact Hdl))).
+      pose proof (straggler_ge_base p f3 m x lastm Hlok Hbase Hf3m Hty Elast Ew) as Hbk. rewrite Ebase in Hbk. cbn [fst] in Hbk.
+      set (k := straggler_index f3 m (x_hist x)) in *. rewrite Ehist in Hbnd, Hkle.
+      destruct (flat_cons_cut ms im gs k Hbnd Hkle Hbk) as (gk & gu & Egs & Ek).
+      exists gk, gu. split; [exact Egs|]. split; [|split; [|split; [unfold w4; change (k_flags w3) with f3; fold k; rewrite Ek; reflexivity|discriminate]]].
+      + intros g Hgg. apply Habove. fold k. rewrite Ehist, Egs, Ek. change ((ms, im) :: gk ++ gu) with (((ms, im) :: gk) ++ gu).
+        rewrite flat_app, skipn_app, skipn_all, Nat.sub_diag. cbn [skipn app]. apply in_procs. rewrite procs_flat. apply in_map. exact Hgg.
+      + destruct gk as [|g0 gk0] using rev_ind; [left; reflexivity|right]. exists gk0, g0. split; [reflexivity|].
+        destruct Hstop as [Hk0|(e & Hne & Hwe)]; [lia|].
+        assert (Ee' : e = snd g0).
+        { rewrite Ehist, Egs in Hne. change ((ms, im) :: (gk0 ++ [g0]) ++ gu) with ((((ms, im) :: gk0) ++ [g0]) ++ gu) in Hne.
+          rewrite flat_app, nth_error_app1 in Hne by (rewrite Ek; change ((ms, im) :: gk0 ++ [g0]) with (((ms, im) :: gk0) ++ [g0]); pose proof (flat_length_pos (ms, im) (gk0 ++ [g0])); cbn [app] in *; lia).
+          rewrite Ek in Hne. change ((ms, im) :: gk0 ++ [g0]) with (((ms, im) :: gk0) ++ [g0]) in Hne. rewrite flat_last in Hne. injection Hne as <-. reflexivity. }
+        rewrite <- Ee'. exact Hwe.
+    - exists gs, []. rewrite app_nil_r. split; [reflexivity|]. split; [intros g []|]. split; [|split; [reflexivity|reflexivity]].
+      destruct gs as [|g0 gs0] using rev_ind; [left; reflexivity|right]. exists gs0, g0. split; [reflexivity|].
+      assert (Elast : last_proc (x_hist x) = Some (snd g0)).
+      { unfold last_proc. rewrite Ehist. change ((ms, im) :: gs0 ++ [g0]) with (((ms, im) :: gs0) ++ [g0]). rewrite flat_app, rev_app_distr.
+        unfold flat at 1. cbn [flat_map]. rewrite app_nil_r. unfold flat1. rewrite rev_app_distr. reflexivity. }
+      unfold strag in Es. rewrite Elast in Es. apply andb_false_iff in Es. change (k_flags w3) with f3 in Es. destruct Es as [Eb|Ew]; [|exact Ew].
+      apply Z.leb_gt in Eb. destruct (get_time w3 l G3 Hl3) as [_ Hbound]. fold x in Hbound.
+      specialize (Hbound (tm (snd g0))). destruct (wbefore f3 m (snd g0)) eqn:Ew; [|reflexivity]. apply wbefore_le in Ew. exfalso.
+      assert (Hin : In (tm (snd g0)) (ptimes (x_hist x))) by (apply ptimes_in; apply in_procs; rewrite Ehist, procs_flat; cbn [map]; right; apply in_map; apply in_or_app; right; left; reflexivity).
+      specialize (Hbound Hin). unfold tm in *. lia. }
+  destruct Hcut as (gk & gu & Egs & Hgu & Hgk & Ew4 & Hnos).
+  subst gs.
+  destruct (keep_undo_groups a f3 m gk gu Hdb Hgu Hgk) as [Ekeep Eundo].
+  (* facts about the state before the undo *)
+  assert (M03 : Mk0 f3 (pend w3) (allmarks (k_lps w3))).
+  { change (k_lps w3) with (k_lps w1). change (pend w3) with (pend w1). rewrite El. intros o Ho Hfo. destruct (Pos.eq_dec (wm_id o) (wm_id m)) as [E|E].
+    - rewrite (Hid o ltac:(rewrite !in_app_iff; tauto) E), Hf3m in Hfo. discriminate.
+    - rewrite (Hfl o E) in Hfo. pose proof (M0 o Ho Hfo) as Hop. apply (Permutation_in _ Hperm) in Hop. destruct Hop as [<-|Hop]; [congruence|exact Hop]. }
+  assert (N53 : No5 f3 (allprocs (k_lps w))).
+  { intros y Hy. destruct (Pos.eq_dec (wm_id y) (wm_id m)) as [E|E]; [rewrite (Hid y ltac:(rewrite !in_app_iff; tauto) E), Hf3m; discriminate|]. rewrite (Hfl y E). apply N5. exact Hy. }
+  assert (HL3' : Loc 0 (k_flags w3) (pend w3) ([m] ++ allprocs (k_lps w3)) (allmarks (k_lps w3)) (k_next w3)).
+  { change (k_flags w3) with f3. change (pend w3) with (pend w1). change (k_lps w3) with (k_lps w1). change (k_next w3) with (k_next w1). rewrite El, En. exact HL3. }
+  assert (H4 : x_hist (get_lp w4 l) = flat ((ms, im) :: gk) /\ (forall i, i <> l -> get_lp w4 i = get_lp w3 i) /\ base (get_lp w4 l) = base x /\
+               x_epoch (get_lp w4 l) = x_epoch x /\ length (k_lps w4) = length (k_lps w3) /\ k_next w4 = k_next w3 /\ k_gvt w4 = k_gvt w3 /\ k_epoch w4 = k_epoch w3 /\
+               Loc 0 (k_flags w4) (pend w4) ([m] ++ allprocs (k_lps w4)) (allmarks (k_lps w4)) (k_next w4) /\
+               (forall y, Live (k_flags w4) (pend w4) y <-> Live f3 (pend w3) y \/ In y (map snd gu)) /\
+               (forall i, Dm (k_flags w4) (pend w4) ([m] ++ allprocs (k_lps w4)) i <-> Dm f3 (pend w3) ([m] ++ allprocs (k_lps w3)) i \/ In i (map wm_id (flat_map fst gu))) /\
+               Mk0 (k_flags w4) (pend w4) (allmarks (k_lps w4)) /\ (forall L0, No5 f3 L0 -> No5 (k_flags w4) L0) /\ all_ok2 p w4).
+  { rewrite Ew4. destruct strag.
+    - change ((ms, im) :: gk ++ gu) with (((ms, im) :: gk) ++ gu) in Ehist.
+      destruct (rollback_sets w3 l [m] ((ms, im) :: gk) gu Ok3 Hl3 Ehist) as (Q1 & Q2 & Q3 & Q4 & Q5 & Q6 & Q7 & Q8 & Q9 & Q10 & Q11 & Q12 & Q13).
+      + fold x. rewrite Ebase. cbn [fst]. rewrite flat_cons, app_length, map_length. cbn. lia.
+      + exact HL3'.
+      + exact M03.
+      + intros y Hy. apply N53. apply in_map_iff in Hy. destruct Hy as (g & <- & Hgg). apply Hpin. apply in_or_app. right. exact Hgg.
+      + cbn zeta in *. repeat (split; [assumption|]). apply do_rollback_ok2; [exact Ok3|]. intros _. fold x. rewrite Ehist. apply bnd_flat_prefix.
+    - rewrite (Hnos eq_refl) in *. rewrite app_nil_r in Ehist. split; [exact Ehist|]. split; [reflexivity|]. do 6 (split; [reflexivity|]).
+      split; [exact HL3'|]. split; [intros y; cbn [map In]; tauto|]. split; [intros i; cbn [flat_map map In]; tauto|]. split; [exact M03|]. split; [intros L0 H; exact H|exact Ok3]. }
+  destruct H4 as (Q1 & Q2 & Q3 & Q4 & Q5 & Q6 & Q7 & Q8 & Q9 & Q10 & Q11 & Q12 & Q13 & Ok4).
+  assert (Hl4 : l < length (k_lps w4)) by (rewrite Q5; exact Hl3).
+  destruct (get_ok2 p w4 l Ok4 Hl4) as [Hlok4 _].
+  (* the state the handler runs on is the replay of the kept history: the abstract machine's state *)
+  assert (Hdest : forall g, In g (gk ++ gu) -> e_dest (wm_ev (snd g)) = N.of_nat l).
+  { intros g Hgg. destruct (Hxl l ltac:(rewrite Hlen; exact Hdl)) as (_ & _ & Hd & _). rewrite <- (Hd (snd g)); [rewrite N2Nat.id; reflexivity|].
+    rewrite <- Ex, Ehist. apply in_procs. rewrite procs_flat. cbn [map]. right. apply in_map. exact Hgg. }
+  assert (Hdm : e_dest (wm_ev m) = N.of_nat l) by (unfold l; rewrite N2Nat.id; reflexivity).
+  assert (Est : x_st (get_lp w4 l) = Abs.stof cont lpstate (AppAbs.s0 p) (ahandle p) l (map ent gk)).
+  { destruct Hlok4 as (newer & r0 & s0' & El4 & _ & _ & Hst). pose proof (base_eq (get_lp w4 l) newer r0 s0' El4) as Eb4. rewrite Q3, Ebase in Eb4.
+    injection Eb4 as <- <-. rewrite Hst, Q1, skipn_flat_init, replay_flat. unfold Abs.stof. symmetry. apply stof_flat; [exact Hdl|].
+    intros g Hgg. apply Hdest. apply in_or_app. left. exact Hgg. }
+  destruct (forward_exact w4 l m Hl4 Hlok4) as (W1 & W2 & W3 & W4 & W5 & W6 & W7 & W8 & W9 & W10 & W11). cbn zeta in *. fold w' in W1, W2, W3, W4, W5, W6, W7, W8, W9, W10, W11.
+  set (outs := snd (handle p (wm_ev m) (x_st (get_lp w4 l)))) in *. set (news := mknews (k_next w4) outs) in *.
+  assert (Enx4 : k_next w4 = k_next w) by (rewrite Q6; change (k_next w3) with (k_next w1); exact En).
+  (* the abstract step *)
+  pose proof (reach_Inv a Hre) as I.
+  assert (Hpm : In (amsg m) (Abs.pool cont a)) by (apply Hp; exists m; split; [split; [exact Hmin|left; exact Hfm]|reflexivity]).
+  assert (Hnd : Abs.doomedb cont a (amsg m) = false).
+  { destruct (Abs.doomedb cont a (amsg m)) eqn:Ed; [|reflexivity]. exfalso. apply (Abs.doomedb_true cont) in Ed. apply Ha in Ed.
+    destruct Ed as (j & (y & Ey & H) & Ej). cbn [amsg Abs.mid] in Ej. apply Pos2Nat.inj in Ej. rewrite <- Ej in Ey.
+    assert (Efl : fl (k_flags w) y = 0%N) by (unfold fl; rewrite Ey; exact Hfm).
+    destruct H as [[_ H]|[_ [H|H]]]; rewrite Efl in H; discriminate. }
+  pose proof (Abs.s_process cont cltb tltb lpstate n (AppAbs.s0 p) (ahandle p) a l (amsg m) Hdl Hpm eq_refl Hnd) as Hstep. cbn zeta in Hstep.
+  rewrite Eah in Hstep.
+  set (K := Abs.keep_of _ _) in Hstep. assert (EK : K = map ent gk) by (unfold K; exact Ekeep). clearbody K. subst K.
+  set (U := Abs.undo_of _ _) in Hstep. assert (EU : U = map ent gu) by (unfold U; exact Eundo). clearbody U. subst U.
+  cbn [amsg Abs.mc] in Hstep.
+  rewrite <- Est in Hstep. rewrite (ahandle_eq p l _ (wm_ev m) Hdl Hdm) in Hstep. cbn [snd] in Hstep. fold outs in Hstep.
+  rewrite Hn, <- Enx4, (number_mknews l outs (k_next w4)) in Hstep. fold news in Hstep.
+  eexists. split; [exact Hstep|].
+  (* bookkeeping shared by several fields *)
+  assert (Hnews_id : forall z y, In z news -> In y (pend w4 ++ ([m] ++ allprocs (k_lps w4)) ++ allmarks (k_lps w4)) -> wm_id z <> wm_id y).
+  { intros z y Hz Hy E. apply (mknews_ids_ge outs (k_next w4) z) in Hz. pose proof (l_lt _ _ _ _ _ _ Q9 y Hy) as Hlt. rewrite E in Hz.
+    exact (Pos.lt_irrefl _ (Pos.lt_le_trans _ _ _ Hlt Hz)). }
+  assert (Hfl' : forall y, In y (pend w4 ++ ([m] ++ allprocs (k_lps w4)) ++ allmarks (k_lps w4)) -> fl (k_flags w') y = fl (k_flags w4) y).
+  { intros y Hy. apply W11. intros z Hz. apply (Hnews_id z y Hz Hy). }
+  assert (Hhist' : x_hist (get_lp w' l) = flat ((ms, im) :: gk ++ [(news, m)])).
+  { rewrite W1, Q1. change ((ms, im) :: gk ++ [(news, m)]) with (((ms, im) :: gk) ++ [(news, m)]). rewrite flat_app. unfold flat at 3. cbn [flat_map]. rewrite app_nil_r. reflexivity. }
+  assert (Hlen' : length (k_lps w') = length (k_lps w)) by (rewrite W5, Q5; change (k_lps w3) with (k_lps w1); rewrite El; reflexivity).
+  assert (Hget : forall i, i <> l -> get_lp w' i = get_lp w i).
+  { intros i Hi. rewrite (W2 i Hi), (Q2 i Hi). unfold get_lp. change (k_lps w3) with (k_lps w1). rewrite El. reflexivity. }
+  assert (Hprocs' : forall y, In y (allprocs (k_lps w')) <-> y = m \/ In y (allprocs (k_lps w4))).
+  { intros y. rewrite !in_allprocs_iff. rewrite W5. split.
+    - intros (i & Hi & H). destruct (Nat.eq_dec i l) as [->|Hne].
+      + rewrite W1 in H. apply in_app_or in H. destruct H as [H|H]; [right; exists l; split; assumption|].
+        apply in_app_or in H. destruct H as [H|[H|[]]]; [apply in_map_iff in H; destruct H as (z & Hz & _); discriminate|left; injection H as <-; reflexivity].
+      + right. exists i. split; [exact Hi|]. rewrite <- (W2 i Hne). exact H.
+    - intros [->|(i & Hi & H)].
+      + exists l. split; [exact Hl4|]. rewrite W1. apply in_or_app. right. apply in_or_app. right. left. reflexivity.
+      + exists i. split; [exact Hi|]. destruct (Nat.eq_dec i l) as [->|Hne]; [rewrite W1; apply in_or_app; left; exact H|rewrite (W2 i Hne); exact H]. }
+  assert (Hmarks' : forall y, In y (allmarks (k_lps w')) <-> In y news \/ In y (allmarks (k_lps w4))).
+  { intros y. rewrite !in_allmarks_iff. rewrite W5. split.
+    - intros (i & Hi & H). destruct (Nat.eq_dec i l) as [->|Hne].
+      + rewrite W1 in H. apply in_app_or in H. destruct H as [H|H]; [right; exists l; split; assumption|].
+        apply in_app_or in H. destruct H as [H|[H|[]]]; [|discriminate]. apply in_map_iff in H. destruct H as (z & Hz & Hin). injection Hz as ->. left. exact Hin.
+      + right. exists i. split; [exact Hi|]. rewrite <- (W2 i Hne). exact H.
+    - intros [H|(i & Hi & H)].
+      + exists l. split; [exact Hl4|]. rewrite W1. apply in_or_app. right. apply in_or_app. left. apply in_map. exact H.
+      + exists i. split; [exact Hi|]. destruct (Nat.eq_dec i l) as [->|Hne]; [rewrite W1; apply in_or_app; left; exact H|rewrite (W2 i Hne); exact H]. }
+  assert (Hpend' : forall y, In y (pend w') <-> In y news \/ In y (pend w4)) by (intros y; rewrite W9, in_app_iff, <- in_rev; reflexivity).
+  (* the worker-side sets after the whole step, in terms of the state before it *)
+  assert (HLive3 : forall y, Live f3 (pend w3) y <-> Live (k_flags w) (pend w) y /\ wm_id y <> wm_id m).
+  { intros y. unfold Live. change (pend w3) with (pend w1). split.
+    - intros [Hy Hfy]. assert (Hyw : In y (pend w)) by (apply (Permutation_in _ (Permutation_sym Hperm)); right; exact Hy).
+      assert (Hyall : In y (pend w ++ allprocs (k_lps w) ++ allmarks (k_lps w))) by (apply in_or_app; left; exact Hyw).
+      assert (Hne : wm_id y <> wm_id m) by (intro E0; apply Hnm1; rewrite <- (Hid y Hyall E0); exact Hy).
+      rewrite (Hfl y Hne) in Hfy. repeat split; assumption.
+    - intros [[Hy Hfy] Hne]. rewrite (Hfl y Hne). split; [|exact Hfy]. apply (Permutation_in _ Hperm) in Hy. destruct Hy as [<-|Hy]; [congruence|exact Hy]. }
+  assert (HDm3 : forall i, Dm f3 (pend w3) ([m] ++ allprocs (k_lps w3)) i <-> Dm (k_flags w) (pend w) (allprocs (k_lps w)) i).
+  { intros i. unfold Dm. change (pend w3) with (pend w1). change (k_lps w3) with (k_lps w1). rewrite El. split.
+    - intros (y & Ey & H). destruct (Pos.eq_dec (wm_id y) (wm_id m)) as [E|E].
+      + exfalso. assert (Efl : fl f3 y = 2%N) by (unfold fl in *; rewrite E; exact Hf3m). destruct H as [[_ H]|[_ [H|H]]]; rewrite Efl in H; discriminate.
+      + exists y. split; [exact Ey|]. rewrite (Hfl y E) in H. destruct H as [[Hy Hfy]|[[<-|Hy] Hfy]]; [left; split; [apply (Permutation_in _ (Permutation_sym Hperm)); right; exact Hy|exact Hfy]|congruence|right; split; assumption].
+    - intros (y & Ey & H). assert (E : wm_id y <> wm_id m).
+      { intro E. assert (Efl : fl (k_flags w) y = 0%N) by (unfold fl in *; rewrite E; exact Hfm). destruct H as [[_ H]|[_ [H|H]]]; rewrite Efl in H; discriminate. }
+      exists y. split; [exact Ey|]. rewrite (Hfl y E). destruct H as [[Hy Hfy]|[Hy Hfy]]; [left; split; [|exact Hfy]|right; split; [right; exact Hy|exact Hfy]].
+      apply (Permutation_in _ Hperm) in Hy. destruct Hy as [<-|Hy]; [congruence|exact Hy]. }
+  assert (HLive' : forall y, Live (k_flags w') (pend w') y <-> Live (k_flags w4) (pend w4) y \/ In y news).
+  { intros y. unfold Live. rewrite Hpend'. split.
+    - intros [[Hy|Hy] Hfy]; [right; exact Hy|left]. rewrite (Hfl' y ltac:(apply in_or_app; left; exact Hy)) in Hfy. split; assumption.
+    - intros [[Hy Hfy]|Hy]; [split; [right; exact Hy|rewrite (Hfl' y ltac:(apply in_or_app; left; exact Hy)); exact Hfy]|split; [left; exact Hy|left; apply W10; exact Hy]]. }
+  assert (HDm' : forall i, Dm (k_flags w') (pend w') (allprocs (k_lps w')) i <-> Dm (k_flags w4) (pend w4) ([m] ++ allprocs (k_lps w4)) i).
+  { intros i. unfold Dm. split.
+    - intros (y & Ey & H). exists y. split; [exact Ey|]. destruct H as [[Hy Hfy]|[Hy Hfy]].
+      + apply Hpend' in Hy. destruct Hy as [Hy|Hy]; [rewrite (W10 y Hy) in Hfy; discriminate|]. left. rewrite (Hfl' y ltac:(apply in_or_app; left; exact Hy)) in Hfy. split; assumption.
+      + apply Hprocs' in Hy. assert (Hy' : In y ([m] ++ allprocs (k_lps w4))) by (cbn [app In]; destruct Hy as [->|Hy]; [left; reflexivity|right; exact Hy]).
+        rewrite (Hfl' y ltac:(apply in_or_app; right; apply in_or_app; left; exact Hy')) in Hfy. right. split; assumption.
+    - intros (y & Ey & H). exists y. split; [exact Ey|]. destruct H as [[Hy Hfy]|[Hy Hfy]].
+      + left. split; [apply Hpend'; right; exact Hy|rewrite (Hfl' y ltac:(apply in_or_app; left; exact Hy)); exact Hfy].
+      + right. split; [apply Hprocs'; cbn [app In] in Hy; destruct Hy as [<-|Hy]; [left; reflexivity|right; exact Hy]|].
+        rewrite (Hfl' y ltac:(apply in_or_app; right; apply in_or_app; left; exact Hy)). exact Hfy. }
+  constructor; cbn [Abs.hist Abs.pool Abs.antis Abs.nid].
+  - exact F'.
+  - rewrite Hlen'. exact Hlen.
+  - rewrite W7, Q7. change (k_gvt w3) with (k_gvt w1). rewrite Eg. exact Hg.
+  - split; [rewrite W8, Q8; change (k_epoch w3) with (k_epoch w1); rewrite Ee; exact He0|]. intros i Hi. destruct (Nat.eq_dec i l) as [->|Hne].
+    + rewrite W4, Q4, Ex. apply Hel. exact Hi.
+    + rewrite (Hget i Hne). apply Hel. exact Hi.
+  - (* flag-0 markers are pending *)
+    intros o Ho Hfo. apply Hmarks' in Ho. destruct Ho as [Ho|Ho]; [apply Hpend'; left; exact Ho|].
+    rewrite (Hfl' o ltac:(rewrite !in_app_iff; tauto)) in Hfo. apply Hpend'. right. apply Q12; assumption.
+  - (* no flag 5 *)
+    intros y Hy. apply Hprocs' in Hy. assert (Hy' : In y ([m] ++ allprocs (k_lps w4))) by (cbn [app In]; destruct Hy as [->|Hy]; [left; reflexivity|right; exact Hy]).
+    rewrite (Hfl' y ltac:(apply in_or_app; right; apply in_or_app; left; exact Hy')). apply (Q13 ([m] ++ allprocs (k_lps w))); [|].
+    + intros z [<-|Hz]; [rewrite Hf3m; discriminate|apply N53; exact Hz].
+    + cbn [app In] in *. destruct Hy as [->|Hy]; [left; reflexivity|right]. apply in_allprocs_iff in Hy. destruct Hy as (i & Hi & H). apply in_allprocs_iff.
+      rewrite Q5 in Hi. change (k_lps w3) with (k_lps w1) in Hi. rewrite El in Hi. exists i. split; [exact Hi|].
+      destruct (Nat.eq_dec i l) as [->|Hne]; [rewrite Q1 in H; rewrite <- Ex, Ehist; change ((ms, im) :: gk ++ gu) with (((ms, im) :: gk) ++ gu); rewrite flat_app; apply in_or_app; left; exact H|].
+      rewrite (Q2 i Hne) in H. unfold get_lp in *. change (k_lps w3) with (k_lps w1) in H. rewrite El in H. exact H.
+  - eapply Bridge.rs; [exact Hre|exact Hstep].
+  - intros i Hi. destruct (Nat.eq_dec i l) as [->|Hne].
+    + exists ms, im, (gk ++ [(news, m)]). split; [exact Hhist'|]. split; [exact Einit|]. split; [rewrite W3, Q3; exact Ebase|].
+      unfold Abs.upd. rewrite Nat.eqb_refl. rewrite map_app. reflexivity.
+    + destruct (Hh i Hi) as (ms' & im' & gs' & E1 & E2 & E3 & E4). exists ms', im', gs'. rewrite (Hget i Hne). split; [exact E1|]. split; [exact E2|]. split; [exact E3|].
+      unfold Abs.upd. destruct (Nat.eqb_spec i l); [contradiction|exact E4].
+  - (* the pool *)
+    intros x0. rewrite !in_app_iff, (remove1_in_iff _ _ _ (pool_nodup a I)), Hp. cbn [amsg Abs.mid]. split.
+    + intros [[(y & Hy & ->) Hne]|[H|H]].
+      * exists y. split; [|reflexivity]. apply HLive'. left. apply Q10. left. apply HLive3. split; [exact Hy|]. intro E. apply Hne. cbn [amsg Abs.mid]. rewrite E. reflexivity.
+      * rewrite map_map in H. apply in_map_iff in H. destruct H as (g & <- & Hgg). exists (snd g). split; [|reflexivity]. apply HLive'. left. apply Q10. right. apply in_map. exact Hgg.
+      * apply in_map_iff in H. destruct H as (y & <- & Hy). exists y. split; [|reflexivity]. apply HLive'. right. exact Hy.
+    + intros (y & Hy & ->). apply HLive' in Hy. destruct Hy as [Hy|Hy]; [|right; right; apply in_map; exact Hy].
+      apply Q10 in Hy. destruct Hy as [Hy|Hy].
+      * apply HLive3 in Hy. destruct Hy as [Hy Hne]. left. split; [exists y; split; [exact Hy|reflexivity]|]. cbn [amsg Abs.mid]. intro E. apply Hne. apply Pos2Nat.inj. exact E.
+      * right. left. rewrite map_map. apply in_map_iff in Hy. destruct Hy as (g & <- & Hgg). apply in_map_iff. exists g. split; [reflexivity|exact Hgg].
+  - (* the cancelled identities *)
+    intros i. rewrite in_app_iff, Ha. split.
+    + intros [(j & Hj & ->)|H].
+      * exists j. split; [|reflexivity]. apply HDm'. apply Q11. left. apply HDm3. exact Hj.
+      * unfold Abs.ids_of in H. apply in_map_iff in H. destruct H as (x0 & <- & Hx). apply in_flat_map in Hx. destruct Hx as (e & He & Hx).
+        apply in_map_iff in He. destruct He as (g & <- & Hgg). cbn [ent Abs.eouts] in Hx. apply in_map_iff in Hx. destruct Hx as (o & <- & Ho).
+        exists (wm_id o). split; [|reflexivity]. apply HDm'. apply Q11. right. apply in_map. apply in_flat_map. exists g. split; assumption.
+    + intros (j & Hj & ->). apply HDm' in Hj. apply Q11 in Hj. destruct Hj as [Hj|Hj].
+      * left. exists j. split; [apply HDm3; exact Hj|reflexivity].
+      * right. apply in_map_iff in Hj. destruct Hj as (o & <- & Ho). apply in_flat_map in Ho. destruct Ho as (g & Hgg & Ho).
+        unfold Abs.ids_of. apply in_map_iff. exists (amsg o). split; [reflexivity|]. apply in_flat_map. exists (ent g). split; [apply in_map; exact Hgg|cbn [ent Abs.eouts]; apply in_map; exact Ho].
+  - rewrite map_length. unfold news. rewrite W6, psucc_n_nat.
+    assert (E : length (mknews (k_next w4) outs) = length outs) by (rewrite <- (map_length wm_ev), mknews_ev; reflexivity). rewrite E. reflexivity.
+Qed.
 End Sim.
